@@ -57,12 +57,19 @@ class RunAnalysis:
             cache_async[fi] = self.spec[fi]["is_async"]
             return fi
 
-        for e in events:
+        # calls-only programs (no invalidation / reset anywhere): nothing but an eviction may remove an entry
+        calls_only = all(op.split(" ")[0] == "call" for prog in self.programs for op in prog if op)
+        hot = self.fns[0]
+        hs = self.spec[hot]
+        started = {}         # thread -> position of the S event of its current op
+        hot_calls = []       # (start position, end position, thread, key, execs, returned value) of calls on the hot cache
+        for pos, e in enumerate(events):
             if not e:
                 continue
             kind, t = e[0], int(e[1:e.index(":")])
             body = e[e.index(":") + 1:]
             if kind == "S":
+                started[t] = pos
                 cur_op[t] = body.split("_")
                 trace[t] = []
                 held.setdefault(t, [])
@@ -116,6 +123,8 @@ class RunAnalysis:
                     if mm:
                         calls_done.setdefault(fi, []).append(int(mm.group(3)))
                         ev("concurrent-call")
+                        if fi == hot:
+                            hot_calls.append((started.get(t, pos), pos, t, mm.group(1), int(mm.group(3)), mm.group(2)))
                         if mm.group(2) != mm.group(4):
                             fail("C18", f"call {' '.join(op)} on thread {t} returned {mm.group(2)[:40]}, the function's value for these arguments is {mm.group(4)[:40]}", replay)
                     elif "PANIC" in body:
@@ -128,10 +137,53 @@ class RunAnalysis:
                     if k:
                         tlines.append(f"T|{k}|-|-|{syncs}|{asyncs}|{' '.join(trace[t])}")
                     ev("concurrent-" + op[0])
+        plain = (hs["limit"] is None and hs["maxmem"] is None and hs["ttl"] is None and not hs["cache_if"] and not hs["inv_on"]
+                 and not hs["is_result"])
+        if calls_only and plain and not hs["thread"]:
+            # C03 (concurrent clause) / C14 (a value stored by one thread is served to every other one): once a call
+            # that ran the body (and therefore stored) has RETURNED, no call started later runs the body for that key
+            ev("c03-plain-concurrent-run")
+            first_store_end = {}
+            for (st, en, t, key, ex, ret) in hot_calls:
+                if ex == 1 and (key not in first_store_end or en < first_store_end[key][0]):
+                    first_store_end[key] = (en, t)
+            for (st, en, t, key, ex, ret) in hot_calls:
+                if key in first_store_end and st > first_store_end[key][0] and ex != 0:
+                    ev("c03-late-execution")
+                    fail("C03", f"on plain cache {hs['name']}: a call for key {key[:24]} on thread {first_store_end[key][1]} ran the body, stored and RETURNED; a call "
+                                f"for the same arguments started afterwards on thread {t} ran the body again (schedule [{sched}])", replay)
+                    if t != first_store_end[key][1]:
+                        fail("C14", f"shared cache {hs['name']}: the value stored by thread {first_store_end[key][1]} for key {key[:24]} was not served to thread {t}, "
+                                    f"whose call started after the storing call had returned (schedule [{sched}])", replay)
         # quiescent state
         if qline:
             dumps_s, stats_s, _ = qline[2:].split("|")
             dumps = macro_stream.parse_dumps(dumps_s)
+            if calls_only and not hs["thread"] and hs["ttl"] is None and not hs["cache_if"] and not hs["inv_on"] and not hs["is_result"] \
+                    and hs["maxmem"] is None:
+                d = dumps.get(f"{hot}:g")
+                if d is not None:
+                    stored_keys = {key for (_, _, _, key, ex, _) in hot_calls if ex == 1}
+                    missing = [k for k in stored_keys if k not in d[0]]
+                    ev("calls-only-quiescent-check")
+                    if missing and (hs["limit"] is None or len(d[0]) < hs["limit"]):
+                        fail("C14", f"calls-only run on shared cache {hs['name']} (limit {hs['limit']}): {len(missing)} key(s) stored by completed calls are gone at "
+                                    f"quiescence although the cache holds only {len(d[0])} entries - nothing but an eviction of a FULL cache may remove them, "
+                                    f"so they are not served to other threads (schedule [{sched}])", replay)
+                        fail("C03", f"calls-only run on cache {hs['name']}: a stored result vanished without the cache being full (schedule [{sched}])", replay)
+            # C20: an async cache is never left corrupted by calls whose store raced with other operations
+            for lbl, d in dumps.items():
+                if d is None:
+                    continue
+                fi = int(lbl.split(":")[0])
+                if not self.spec[fi]["is_async"]:
+                    continue
+                entries, queue = d
+                bad = [k for k in entries if k not in queue] + [k for k in queue if k not in entries]
+                if bad or len(set(queue)) != len(queue) or (self.spec[fi]["limit"] is not None and len(entries) > self.spec[fi]["limit"]):
+                    fail("C20", f"at quiescence async cache {self.spec[fi]['name']} is inconsistent after calls that suspended in their body and stored on resumption "
+                                f"while other threads operated on it: {len(entries)} entries (limit {self.spec[fi]['limit']}), {len(bad)} key(s) in only one of store / queue "
+                                f"(schedule [{sched}])", replay)
             for lbl, d in dumps.items():
                 if d is None:
                     continue
